@@ -167,12 +167,18 @@ func (g *ValGen) val(t types.Type, depth int) *sx.Node {
 			if g.Mode == 0 {
 				g.Mode = 1
 			}
+			// no back-references inside keys: two keys holding the same pointer could be one and the same key
+			saveShare := g.Share
+			g.Share = 0
 			k := g.val(u.Key(), depth+1)
+			g.Share = saveShare
 			g.Mode = save
-			if seen[k.String()] {
+			// entries are compared in the order of their keys' printed form without addresses: keep those distinct
+			ek := erasedText(k)
+			if seen[ek] {
 				continue
 			}
-			seen[k.String()] = true
+			seen[ek] = true
 			v := g.val(u.Elem(), depth+1)
 			// Go's map iteration order decides which failing entry surfaces first: at most one poisoned entry per map
 			if poisoned(k) || poisoned(v) {
@@ -192,6 +198,30 @@ func (g *ValGen) val(t types.Type, depth int) *sx.Node {
 		return out
 	}
 	return sx.A("nil")
+}
+
+// erasedText prints a value description without the labels of its reference cells.
+func erasedText(n *sx.Node) string {
+	if n == nil {
+		return ""
+	}
+	if len(n.L) == 0 {
+		return n.String()
+	}
+	var b strings.Builder
+	b.WriteString("(")
+	for i, c := range n.L {
+		if i == 1 && (n.Head() == "ptr" || n.Head() == "sl" || n.Head() == "mp") {
+			continue
+		}
+		if n.Head() == "ref" && i == 1 {
+			b.WriteString(" ref")
+			continue
+		}
+		b.WriteString(" " + erasedText(c))
+	}
+	b.WriteString(")")
+	return b.String()
 }
 
 func poisoned(n *sx.Node) bool {
